@@ -713,6 +713,41 @@ func init() {
 		Rule: "random multi-version tries on memory and persistent stores; removal of every single non-root node (sweep1), every subtree (sweepsub), random scattered sets (rm/rmsub groups) and, for tries of <= 10 nodes, every subset (all); HasMissingNodes / GetAllMissingNodes / lookups / iteration compared with an independent walk of the stored bytes; repair by MergeDB from a donor store at the creation version and at different versions; non-trivial = at least one non-empty removal and one repair",
 		Gen:  genC17,
 		Run:  runC17,
+		Exhaustive: func(tier string, emit func([]string)) {
+			// every trie holding 1..3 (thorough: 1..4) of these keys, at one or two versions, every subset of its nodes removed
+			paths := []string{"-", "aa", "ab", "ba", "aaaa", "aaab", "abaa"}
+			max := 3
+			if tier == "thorough" {
+				max = 4
+			}
+			var rec func(start int, cur []string)
+			rec = func(start int, cur []string) {
+				if len(cur) > 0 {
+					for _, store := range []string{"mem", "pndb"} {
+						ops := []string{"new " + store + " 1"}
+						for i, p := range cur {
+							if i == 1 {
+								ops = append(ops, "ver 3")
+							}
+							ops = append(ops, fmt.Sprintf("ins %s 4%d", p, i))
+						}
+						ops = append(ops, "snap")
+						for _, p := range paths {
+							ops = append(ops, "get "+p)
+						}
+						ops = append(ops, "sweep1", "sweepsub", "all")
+						emit(ops)
+					}
+				}
+				if len(cur) == max {
+					return
+				}
+				for i := start; i < len(paths); i++ {
+					rec(i+1, append(append([]string(nil), cur...), paths[i]))
+				}
+			}
+			rec(0, nil)
+		},
 		DefaultN: func(tier string) int {
 			if tier == "thorough" {
 				return 20000
